@@ -127,10 +127,12 @@ Inductive want := WVal (v : Z) | WDone | WRaise (e : exn) | WFree.
 Definition kind_code (g : rule) : Z :=
   match g with
   | RPol PPython => 0 | RPol (PAny _) => 1 | RPol PDisallow => 2 | RPol (PReadOnly _) => 3
-  | RPol (PConstant _) => 4 | RPol (PEvent _) => 5 | RPol (PTyped _ _) => 6
+  | RPol (PConstant _) => 4 | RPol (PEvent _) => 5 | RPol (PTyped _ _) | RPol (PMap _ _) => 6
+  | RPol (PShadow _) => 1
   | RDunder => 7 | RNone => 8
   end.
 
+Definition is_none (x : option Z) : bool := match x with None => true | Some _ => false end.
 Definition defined (sb : option Z) : bool :=
   match sb with Some w => negb (Z.eqb w VUndef) | None => false end.
 
@@ -145,7 +147,7 @@ Definition demand (g : rule) (sb : option Z) (o : op) : want * option (option Z)
        | RPol PDisallow | RPol (PEvent _) => WRaise AttributeError
        | RPol (PConstant c) => WVal c
        | RDunder => match sb with Some v => WVal v | None => WFree end
-       | RNone => WFree
+       | RNone | RPol (PMap _ _) | RPol (PShadow _) => WFree      (* mapped traits: [demand_m] *)
        end, None)
   | OSet _ v =>
       match g with
@@ -164,7 +166,7 @@ Definition demand (g : rule) (sb : option Z) (o : op) : want * option (option Z)
       | RPol (PReadOnly d) =>
           (* a given default (d <> Undefined) is the defining value: nothing may be assigned *)
           if negb (Z.eqb d VUndef) || defined sb then (WRaise TraitError, Some sb) else (WDone, Some (Some v))
-      | RNone => (WFree, None)
+      | RNone | RPol (PMap _ _) | RPol (PShadow _) => (WFree, None)
       end
   | ODel _ =>
       match g with
@@ -172,7 +174,7 @@ Definition demand (g : rule) (sb : option Z) (o : op) : want * option (option Z)
       | RPol (PAny _) | RPol (PTyped _ _) | RDunder => (WDone, Some None)
       | RPol PDisallow | RPol (PConstant _) | RPol (PReadOnly _) => (WRaise TraitError, Some sb)
       | RPol (PEvent _) => (WDone, Some sb)
-      | RNone => (WFree, None)
+      | RNone | RPol (PMap _ _) | RPol (PShadow _) => (WFree, None)
       end
   | OAdd _ _ => (WDone, None)
   | ORem _ => (WFree, None)
@@ -206,17 +208,74 @@ Section Law.
   Definition governing (ls : lstate) (n : name) : rule :=
     match assoc n (l_itd ls) with Some p => RPol p | None => crule n end.
 
+  (* Mapped traits (Map): the name itself behaves like a typed trait whose validator is "key of
+     the map"; its shadow name_ is untyped and, while nothing is stored for it, reads as the mapped
+     value of the name.  These demands are made in the normal configuration only (the shadow name
+     governed by the shadow trait that add_trait / the class body installed); when the user put
+     another trait on the shadow name the assignment Map.post_setattr makes to it may fail and the
+     law is silent (WFree). *)
+  Definition demand_m (ls : lstate) (g : rule) (sb : option Z) (o : op) : want * option (option Z) :=
+    let n := op_name o in
+    match g with
+    | RPol (PMap m d) =>
+        match governing ls (n ++ [US]), o with
+        | RPol (PShadow _), OGet _ => (match sb with Some v => WVal v | None => WVal d end, None)
+        | RPol (PShadow _), OSet _ v =>
+            if Z.eqb v VUndef then (WFree, None)
+            else match zassoc v m with
+                 | Some _ => (WDone, Some (Some v))
+                 | None => (WRaise TraitError, Some sb)
+                 end
+        | _, ODel _ => (WDone, Some None)
+        | _, _ => (WFree, None)
+        end
+    | RPol (PShadow m) =>
+        match o with
+        | OGet _ =>
+            (match sb with
+             | Some v => WVal v
+             | None =>
+                 let b := removelast n in
+                 match governing ls b with
+                 | RPol (PMap _ d) =>
+                     match zassoc (match assoc b (l_od ls) with Some x => x | None => d end) m with
+                     | Some w => WVal w
+                     | None => WFree
+                     end
+                 | _ => WFree
+                 end
+             end, None)
+        | OSet _ v => (WDone, Some (Some v))
+        | ODel _ => (WDone, Some None)
+        | _ => (WFree, None)
+        end
+    | _ => demand g sb o
+    end.
+
+  (* the trait remove_trait(name) finds: the instance trait, else a declared class trait *)
+  Definition found_trait (ls : lstate) (n : name) : option policy :=
+    match assoc n (l_itd ls) with
+    | Some p => Some p
+    | None => match crule n with RPol p => Some p | _ => None end
+    end.
+
   Definition law_step (ls : lstate) (o : op) (ob : obs) : list Z :=
     let n := op_name o in
     let g := governing ls n in
     let sb := assoc n (l_od ls) in
     match o with
-    | ORem _ =>   (* returns whether an instance trait was removed *)
+    | ORem _ =>   (* returns whether an instance trait was removed; nothing of the removed instance
+                     trait stays behind: neither its value nor (mapped trait) its shadow value *)
         chk 91 (match o_out ob with Val _ => true | _ => false end)
         ++ chk 92 (value_ok (WVal (if amem n (l_itd ls) then 1 else 0)) (o_out ob))
+        ++ chk 93 (match assoc n (l_itd ls) with
+                   | Some p => is_none (o_stored ob)
+                               && match mapped_of p with Some _ => is_none (o_shadow ob) | None => true end
+                   | None => true
+                   end)
     | OAdd _ _ => chk 91 (class_ok WDone (o_out ob))
     | _ =>
-        let '(w, ws) := demand g sb o in
+        let '(w, ws) := demand_m ls g sb o in
         let k := 10 * kind_code g in
         chk (k + 1) (class_ok w (o_out ob))
         ++ chk (k + 2) (value_ok w (o_out ob))
@@ -225,14 +284,31 @@ Section Law.
 
   (* the instance traits follow the successful add_trait / remove_trait calls; what is
      stored for a name is taken from the observation *)
+  Definition resync (m : name) (v : option Z) (od : list (name * Z)) : list (name * Z) :=
+    match v with Some x => aset m x od | None => adel m od end.
+
+  (* a mapped trait comes and goes together with the shadow trait of name_ *)
   Definition law_next (ls : lstate) (o : op) (ob : obs) : lstate :=
     let n := op_name o in
     let itd := match o, o_out ob with
-               | OAdd _ p, Done => aset n p (l_itd ls)
-               | ORem _, Val _ => adel n (l_itd ls)
+               | OAdd _ p, Done =>
+                   aset n p (match mapped_of p with
+                             | Some m => aset (n ++ [US]) (PShadow m) (l_itd ls)
+                             | None => l_itd ls
+                             end)
+               | ORem _, Val _ =>
+                   adel n (match found_trait ls n with
+                           | Some p => match mapped_of p with
+                                       | Some _ => adel (n ++ [US]) (l_itd ls)
+                                       | None => l_itd ls
+                                       end
+                           | None => l_itd ls
+                           end)
                | _, _ => l_itd ls
                end in
-    mkL itd (match o_stored ob with Some v => aset n v (l_od ls) | None => adel n (l_od ls) end).
+    let od1 := resync n (o_stored ob) (l_od ls) in
+    let od2 := resync (n ++ [US]) (o_shadow ob) od1 in
+    mkL itd (if ends_us n then resync (removelast n) (o_base ob) od2 else od2).
 
   Fixpoint law_hist (i : Z) (ls : lstate) (h : list (op * obs)) : list Z :=
     match h with
@@ -251,5 +327,5 @@ Fixpoint law_hist2 (crule : name -> rule) (i : Z) (la lb : lstate) (h : list (bo
   | (w, o, ob) :: r =>
       let me := if w then lb else la in
       map (fun c => 100 * i + c) (law_step crule me o ob)
-      ++ law_hist2 crule (i + 1) (if w then la else law_next me o ob) (if w then law_next me o ob else lb) r
+      ++ law_hist2 crule (i + 1) (if w then la else law_next crule me o ob) (if w then law_next crule me o ob else lb) r
   end.
